@@ -323,14 +323,16 @@ theorem varint_zero (P : Bytes) : varint (0 :: P) = .ok (0, P) := by
   have := varint_encode 0 (by decide) P
   simpa [encodeVarint, encodeVarintGo] using this
 
-/-- decode_user ∘ (write the (uid,user) pair) = id, inline or by reference -/
+/-- decode_user ∘ (write the (uid,user) pair) = id, inline or by reference (incl. the
+    anonymous pair) -/
 theorem decodeUser_emit (uid : Nat) (user : Bytes) (huid : uid < 4294967296) (hu : ∀ b ∈ user, b ≠ 0)
-    (h0 : uid = 0 → user = []) (allow : Bool) (hallow : uid = 0 → allow = false)
+    (hul : user.length ≤ maxOsmStringLength) (h0 : uid = 0 → user = []) (allow : Bool)
     (s : O5mSpec.EncSt) (tab : Table) (hr : TabRel tab s.hist) (P : Bytes) :
     ∃ tab', decodeUser tab (O5mSpec.payload (O5mSpec.emitPair allow s (O5mSpec.userPair uid user)).1 ++ P)
         = .ok ((uid, user), tab', P) ∧
       TabRel tab' (O5mSpec.emitPair allow s (O5mSpec.userPair uid user)).2.hist := by
   have hle : ¬ uid > 4294967295 := by omega
+  have hul' : ¬ user.length + 1 > maxOsmStringLength + 1 := by omega
   rcases emitPair_cases' allow s (O5mSpec.userPair uid user) with ⟨hp, hh⟩ | ⟨hal, i, hi, hget, hp, hh⟩
   · -- inline
     refine ⟨tab.add (O5mSpec.userPair uid user), ?_, by rw [hh]; exact hr.add _⟩
@@ -356,27 +358,38 @@ theorem decodeUser_emit (uid : Nat) (user : Bytes) (huid : uid < 4294967296) (hu
       simp only [ok_bind, pure_bind', hle, ↓reduceIte, Ptr.atEnd, List.isEmpty_cons, Bool.and_false, Bool.false_eq_true,
         List.tail_cons, huz, Bool.false_and]
       rw [walkPre_cstr .noNulUser true user P [] hu]
-      simp only [ok_bind, List.reverse_nil, List.nil_append, ↓reduceIte]
+      simp only [ok_bind, List.reverse_nil, List.nil_append, ↓reduceIte, hul']
       rw [← e1, slice_append]
       rfl
-  · -- back-reference (never for the anonymous pair)
-    have hz : uid ≠ 0 := by intro h; have := hallow h; rw [hal] at this; cases this
-    have huz : (uid == 0) = false := by simpa using hz
+  · -- back-reference
     refine ⟨tab, ?_, by rw [hh]; exact hr⟩
     rw [hp]
     obtain ⟨junk, hg⟩ := hr.get i _ hi hget
     have h1 : 1 ≤ i + 1 := by omega
     have h2 : i + 1 < 2 ^ 64 := by simp only [O5mSpec.tableSize] at hi; omega
-    have e1 : padSlot (O5mSpec.userPair uid user ++ junk) =
-        encodeVarint uid ++ (0 :: (user ++ 0 :: (junk ++ List.replicate (entrySize - (O5mSpec.userPair uid user ++ junk).length) 0))) := by
-      simp [padSlot, O5mSpec.userPair, huz]
-    simp only [decodeUser, isInline_varint (i + 1) P h1 h2, decodeString_ref tab (i + 1) P h1 h2, hg, ok_bind, pure_bind',
-      Ptr.varint, Bool.false_eq_true, ↓reduceIte]
-    rw [e1, decodeVarint_encodeVarint uid (by omega)]
-    simp only [ok_bind, hle, ↓reduceIte, Ptr.atEnd, Bool.false_and, Bool.false_eq_true, List.tail_cons, huz, Bool.and_false]
-    rw [walkPre_cstr .noNulUser false user _ [] hu]
-    simp
-    rfl
+    by_cases hz : uid = 0
+    · have hue := h0 hz
+      subst hz; subst hue
+      have e1 : padSlot (O5mSpec.userPair 0 [] ++ junk) =
+          0 :: (0 :: (junk ++ List.replicate (entrySize - (O5mSpec.userPair 0 [] ++ junk).length) 0)) := by
+        simp [padSlot, O5mSpec.userPair]
+      simp only [decodeUser, isInline_varint (i + 1) P h1 h2, decodeString_ref tab (i + 1) P h1 h2, hg, ok_bind, pure_bind',
+        Ptr.varint, Bool.false_eq_true, ↓reduceIte]
+      rw [e1, varint_zero]
+      simp [Ptr.atEnd]
+      rfl
+    · have huz : (uid == 0) = false := by simpa using hz
+      have e1 : padSlot (O5mSpec.userPair uid user ++ junk) =
+          encodeVarint uid ++ (0 :: (user ++ 0 :: (junk ++ List.replicate (entrySize - (O5mSpec.userPair uid user ++ junk).length) 0))) := by
+        simp [padSlot, O5mSpec.userPair, huz]
+      simp only [decodeUser, isInline_varint (i + 1) P h1 h2, decodeString_ref tab (i + 1) P h1 h2, hg, ok_bind, pure_bind',
+        Ptr.varint, Bool.false_eq_true, ↓reduceIte]
+      rw [e1, varint_encode uid (by omega)]
+      simp only [ok_bind, pure_bind', hle, ↓reduceIte, Ptr.atEnd, Bool.false_and, Bool.false_eq_true, List.tail_cons, huz, Bool.and_false]
+      rw [walkPre_cstr .noNulUser false user _ [] hu]
+      have hul2 : ¬ maxOsmStringLength < user.length := by omega
+      simp [hul2]
+      rfl
 
 /-- decode_role ∘ (write the type+role string) = id, inline or by reference -/
 theorem decodeRole_emit (type : Nat) (role : Bytes) (ht : 1 ≤ type ∧ type ≤ 3) (hro : ∀ b ∈ role, b ≠ 0)
@@ -567,7 +580,7 @@ theorem relMembers_emit : ∀ (ms : List Member) (s : O5mSpec.EncSt) (st : St) (
 
 def MetaOk (m : Meta) : Prop :=
   InI64 m.id ∧ m.version < 2147483648 ∧ m.timestamp < 4294967296 ∧ m.changeset < 4294967296 ∧ m.uid < 4294967296 ∧
-  (∀ b ∈ m.user, b ≠ 0) ∧ m.user.length < 65535 ∧ (∀ t ∈ m.tags, TagOk t) ∧
+  (∀ b ∈ m.user, b ≠ 0) ∧ m.user.length ≤ maxOsmStringLength ∧ (∀ t ∈ m.tags, TagOk t) ∧
   (m.version = 0 → m.timestamp = 0) ∧ (m.timestamp = 0 → m.changeset = 0 ∧ m.uid = 0 ∧ m.user = []) ∧
   (m.uid = 0 → m.user = []) ∧ (m.visible = false → m.tags = [])
 
@@ -577,7 +590,7 @@ def infoOf (m : Meta) : Info :=
 theorem toU32_nat (n : Nat) (h : n < 4294967296) : toU32 (n : Int) = n := by
   unfold toU32; omega
 
-theorem decodeInfo_emit (ch : O5mSpec.Choices) (hra : ch.refAnon = false) (m : Meta) (hm : MetaOk m)
+theorem decodeInfo_emit (ch : O5mSpec.Choices) (m : Meta) (hm : MetaOk m)
     (s : O5mSpec.EncSt) (st : St) (hr : StRel st s) (last : Bool) (P : Bytes) (hl : last = true → P = []) :
     ∃ st', decodeInfo st (O5mSpec.payload (O5mSpec.emitInfo ch s m last).1 ++ P) = .ok (infoOf m, st', P) ∧
       StRel st' (O5mSpec.emitInfo ch s m last).2 := by
@@ -650,8 +663,7 @@ theorem decodeInfo_emit (ch : O5mSpec.Choices) (hra : ch.refAnon = false) (m : M
         have hstrel2 : StRel { st with ts := (m.timestamp : Int), cs := (m.changeset : Int) }
             { s with ts := (m.timestamp : Int), cs := (m.changeset : Int) } :=
           ⟨hr.tab, hr.id, rfl, rfl, hr.lon, hr.lat, hr.wayNode, hr.mem0, hr.mem1, hr.mem2⟩
-        have hallow : m.uid = 0 → (m.uid != 0 || ch.refAnon) = false := by intro h; simp [h, hra]
-        obtain ⟨tab', hdu, hrt⟩ := decodeUser_emit m.uid m.user huid hunul hu0 (m.uid != 0 || ch.refAnon) hallow
+        obtain ⟨tab', hdu, hrt⟩ := decodeUser_emit m.uid m.user huid hunul hulen hu0 (m.uid != 0 || ch.refAnon)
           { s with ts := (m.timestamp : Int), cs := (m.changeset : Int) } st.tab hr.tab P
         have hfrm := emitPair_frame (m.uid != 0 || ch.refAnon) { s with ts := (m.timestamp : Int), cs := (m.changeset : Int) }
           (O5mSpec.userPair m.uid m.user)
@@ -741,9 +753,12 @@ theorem tagsTail_emit (tags : List Tag) (htags : ∀ t ∈ tags, TagOk t) (s : O
     simp only [hemp, Bool.not_false, ↓reduceIte, decodeTags]
     simpa using hd
 
-theorem setUser_ok (u : Bytes) (h : u.length < 65535) : setUser {} u = .ok u := by
+theorem setUser_ok (u : Bytes) (h : u.length ≤ maxOsmStringLength) : setUser {} u = .ok u := by
+  simp only [maxOsmStringLength] at h
   have h2 : ¬ u.length = 65535 := by omega
   simp [setUser, h2, Nat.mod_eq_of_lt (show u.length < 65536 by omega)]
+
+@[simp] theorem infoOf_user (m : Meta) : (infoOf m).user = m.user := rfl
 
 theorem mkMeta_infoOf (m : Meta) : mkMeta m.id (infoOf m) m.user m.visible m.tags = m := by
   cases m; rfl
@@ -770,31 +785,68 @@ theorem tagsTail_bind {β : Type} (k : List Tag → Table → β) (tags : List T
     rw [h]
     rfl
 
-theorem decodeNode_emit (ch : O5mSpec.Choices) (hra : ch.refAnon = false) (m : Meta) (loc : Location) (hm : MetaOk m)
-    (hloc : (m.visible = true → InI32 loc.x ∧ InI32 loc.y) ∧ (m.visible = false → loc = Location.undefined))
+theorem isEmpty_svarint_append (x : Int) (r : Bytes) : (O5mSpec.svarint x ++ r).isEmpty = false := by
+  have := svarint_length_pos x
+  cases h : O5mSpec.svarint x with
+  | nil => rw [h] at this; simp at this
+  | cons a b => simp
+
+theorem isEmpty_encodeVarint_append (v : Nat) (r : Bytes) : (encodeVarint v ++ r).isEmpty = false := by
+  have : encodeVarint v ≠ [] := encodeVarintGo_ne_nil _ _
+  cases h : encodeVarint v with
+  | nil => exact (this h).elim
+  | cons a b => simp
+
+theorem emitRefs_length : ∀ (refs : List NodeRef) (s : O5mSpec.EncSt),
+    refs.length ≤ (O5mSpec.payload (O5mSpec.emitRefs s refs).1).length
+  | [], s => by simp
+  | r :: rs, s => by
+    have h1 := svarint_length_pos (O5mSpec.delta r.ref s.wayNode)
+    have h2 := emitRefs_length rs { s with wayNode := r.ref }
+    simp only [O5mSpec.emitRefs, O5mSpec.payload, List.map_cons, List.flatten_cons, List.length_append, List.length_cons] at h2 ⊢
+    omega
+
+theorem emitMembers_length : ∀ (ms : List Member) (s : O5mSpec.EncSt),
+    ms.length ≤ (O5mSpec.payload (O5mSpec.emitMembers s ms).1).length
+  | [], s => by simp
+  | m :: ms, s => by
+    have h1 := svarint_length_pos (O5mSpec.delta m.ref (s.mem m.type))
+    have h2 := emitMembers_length ms ((O5mSpec.emitPair true s (O5mSpec.rolePair m.type m.role)).2.setMem m.type m.ref)
+    simp only [O5mSpec.emitMembers, O5mSpec.payload, List.map_cons, List.flatten_cons, List.map_append, List.flatten_append,
+      List.length_append, List.length_cons] at h2 ⊢
+    omega
+
+/-- the three decoders with `cfg = {}` (NDEBUG build, all entity types) on what `emitObject` wrote -/
+def ObjOk : Object → Prop
+  | .node m loc => MetaOk m ∧ (m.visible = true → InI32 loc.x ∧ InI32 loc.y) ∧ (m.visible = false → loc = Location.undefined)
+  | .way m refs => MetaOk m ∧ (∀ r ∈ refs, RefOk r) ∧ (m.visible = false → refs = [])
+  | .relation m ms => MetaOk m ∧ (∀ x ∈ ms, MemberOk x) ∧ (m.visible = false → ms = [])
+  | .changeset .. => False
+
+theorem decodeNode_emit (ch : O5mSpec.Choices) (m : Meta) (loc : Location) (hok : ObjOk (.node m loc))
     (s : O5mSpec.EncSt) (st : St) (hr : StRel st s) :
     ∃ fields st', (O5mSpec.emitObject ch s (.node m loc)).1 = .ds 0x10 fields ∧
       decodeNode {} st (O5mSpec.payload fields) = .ok (.node m loc, st') ∧
       StRel st' (O5mSpec.emitObject ch s (.node m loc)).2 := by
-  have hm' := hm
+  obtain ⟨hm', hloc1, hloc2⟩ := hok
+  have hm := hm'
   obtain ⟨hid, hver, hts, hcs, huid, hunul, hulen, htags, hv0, ht0, hu0, hvis⟩ := hm
   have hr0 : StRel { st with id := m.id } { s with id := m.id } :=
     ⟨hr.tab, rfl, hr.ts, hr.cs, hr.lon, hr.lat, hr.wayNode, hr.mem0, hr.mem1, hr.mem2⟩
   by_cases hv : m.visible = true
-  · -- visible: id, info, lon, lat, tags
-    obtain ⟨hx, hy⟩ := hloc.1 hv
-    generalize hei : O5mSpec.emitInfo ch { s with id := m.id } m (!m.visible) = ei
+  · obtain ⟨hx, hy⟩ := hloc1 hv
+    generalize hei : O5mSpec.emitInfo ch { s with id := m.id } m false = ei
     obtain ⟨fi, s1⟩ := ei
     generalize het : O5mSpec.emitTags { s1 with lon := loc.x, lat := loc.y } m.tags = et
     obtain ⟨ft, s2⟩ := et
     have hemit : O5mSpec.emitObject ch s (.node m loc) =
         (.ds 0x10 (⟨.num, O5mSpec.svarint (O5mSpec.delta m.id s.id)⟩ :: fi ++
           [⟨.num, O5mSpec.svarint (O5mSpec.delta loc.x s1.lon)⟩, ⟨.num, O5mSpec.svarint (O5mSpec.delta loc.y s1.lat)⟩] ++ ft), s2) := by
-      simp [O5mSpec.emitObject, hei, het, hv]
+      simp [O5mSpec.emitObject, hv, hei, het]
     rw [hemit]
-    obtain ⟨st1, hdi, hr1⟩ := decodeInfo_emit ch hra m hm' { s with id := m.id } { st with id := m.id } hr0 (!m.visible)
+    obtain ⟨st1, hdi, hr1⟩ := decodeInfo_emit ch m hm' { s with id := m.id } { st with id := m.id } hr0 false
       (O5mSpec.svarint (O5mSpec.delta loc.x s1.lon) ++ (O5mSpec.svarint (O5mSpec.delta loc.y s1.lat) ++ O5mSpec.payload ft))
-      (by intro h; simp [hv] at h)
+      (by intro h; cases h)
     rw [hei] at hdi hr1
     simp only at hdi hr1
     have hr2 : StRel { st1 with lon := loc.x, lat := loc.y } { s1 with lon := loc.x, lat := loc.y } :=
@@ -812,30 +864,23 @@ theorem decodeNode_emit (ch : O5mSpec.Choices) (hra : ch.refAnon = false) (m : M
           (O5mSpec.svarint (O5mSpec.delta loc.x s1.lon) ++ (O5mSpec.svarint (O5mSpec.delta loc.y s1.lat) ++ O5mSpec.payload ft))) := by
       simp [O5mSpec.payload]
     rw [hpl]
-    have hne : (O5mSpec.svarint (O5mSpec.delta loc.x s1.lon) ++
-        (O5mSpec.svarint (O5mSpec.delta loc.y s1.lat) ++ O5mSpec.payload ft)).isEmpty = false := by
-      have := svarint_length_pos (O5mSpec.delta loc.x s1.lon)
-      cases h : O5mSpec.svarint (O5mSpec.delta loc.x s1.lon) with
-      | nil => rw [h] at this; simp at this
-      | cons a b => simp
-    simp only [decodeNode, zvarint_svarint _ (delta_inI64 _ _), ok_bind, hr.id, wrap_delta _ _ hid, hdi,
-      setUser_ok m.user hulen, hne, Bool.false_eq_true, ↓reduceIte, hr1.lon, hr1.lat,
+    simp only [decodeNode, zvarint_svarint _ (delta_inI64 _ _), ok_bind, hr.id, wrap_delta _ _ hid, hdi, infoOf_user,
+      setUser_ok m.user hulen, isEmpty_svarint_append, Bool.false_eq_true, ↓reduceIte, hr1.lon, hr1.lat,
       wrap_delta _ _ (inI64_of_inI32 hx), wrap_delta _ _ (inI64_of_inI32 hy)]
     rw [htl]
     have := mkMeta_infoOf m
     rw [hv] at this
     simp only [this, wrap32_id _ hx.1 hx.2, wrap32_id _ hy.1 hy.2]
-  · -- deleted: id, info
-    have hvf : m.visible = false := by simpa using hv
-    have hl := hloc.2 hvf
+  · have hvf : m.visible = false := by simpa using hv
+    have hl := hloc2 hvf
     have htg := hvis hvf
-    generalize hei : O5mSpec.emitInfo ch { s with id := m.id } m (!m.visible) = ei
+    generalize hei : O5mSpec.emitInfo ch { s with id := m.id } m true = ei
     obtain ⟨fi, s1⟩ := ei
     have hemit : O5mSpec.emitObject ch s (.node m loc) =
         (.ds 0x10 (⟨.num, O5mSpec.svarint (O5mSpec.delta m.id s.id)⟩ :: fi), s1) := by
-      simp [O5mSpec.emitObject, hei, hvf]
+      simp [O5mSpec.emitObject, hvf, hei]
     rw [hemit]
-    obtain ⟨st1, hdi, hr1⟩ := decodeInfo_emit ch hra m hm' { s with id := m.id } { st with id := m.id } hr0 (!m.visible) []
+    obtain ⟨st1, hdi, hr1⟩ := decodeInfo_emit ch m hm' { s with id := m.id } { st with id := m.id } hr0 true []
       (fun _ => rfl)
     rw [hei] at hdi hr1
     simp only [List.append_nil] at hdi hr1
@@ -844,7 +889,225 @@ theorem decodeNode_emit (ch : O5mSpec.Choices) (hra : ch.refAnon = false) (m : M
         O5mSpec.svarint (O5mSpec.delta m.id s.id) ++ O5mSpec.payload fi := by
       simp [O5mSpec.payload]
     rw [hpl]
-    simp only [decodeNode, zvarint_svarint _ (delta_inI64 _ _), ok_bind, hr.id, wrap_delta _ _ hid, hdi,
+    simp only [decodeNode, zvarint_svarint _ (delta_inI64 _ _), ok_bind, hr.id, wrap_delta _ _ hid, hdi, infoOf_user,
+      setUser_ok m.user hulen, List.isEmpty_nil, ↓reduceIte]
+    have := mkMeta_infoOf m
+    rw [hvf, htg] at this
+    rw [this, hl]
+    rfl
+
+theorem decodeWay_emit (ch : O5mSpec.Choices) (m : Meta) (refs : List NodeRef) (hok : ObjOk (.way m refs))
+    (s : O5mSpec.EncSt) (st : St) (hr : StRel st s)
+    (hsz : O5mSpec.tokPayloadLen (O5mSpec.emitObject ch s (.way m refs)).1 < 2 ^ 64) :
+    ∃ fields st', (O5mSpec.emitObject ch s (.way m refs)).1 = .ds 0x11 fields ∧
+      decodeWay {} st (O5mSpec.payload fields) = .ok (.way m refs, st') ∧
+      StRel st' (O5mSpec.emitObject ch s (.way m refs)).2 := by
+  obtain ⟨hm', hrefs, hdel⟩ := hok
+  have hm := hm'
+  obtain ⟨hid, hver, hts, hcs, huid, hunul, hulen, htags, hv0, ht0, hu0, hvis⟩ := hm
+  have hr0 : StRel { st with id := m.id } { s with id := m.id } :=
+    ⟨hr.tab, rfl, hr.ts, hr.cs, hr.lon, hr.lat, hr.wayNode, hr.mem0, hr.mem1, hr.mem2⟩
+  by_cases hv : m.visible = true
+  · generalize hei : O5mSpec.emitInfo ch { s with id := m.id } m false = ei
+    obtain ⟨fi, s1⟩ := ei
+    generalize her : O5mSpec.emitRefs s1 refs = er
+    obtain ⟨fr, s2⟩ := er
+    generalize het : O5mSpec.emitTags s2 m.tags = et
+    obtain ⟨ft, s3⟩ := et
+    have hemit : O5mSpec.emitObject ch s (.way m refs) =
+        (.ds 0x11 (⟨.num, O5mSpec.svarint (O5mSpec.delta m.id s.id)⟩ :: fi ++
+          [⟨.len, encodeVarint (O5mSpec.payload fr).length⟩] ++ fr ++ ft), s3) := by
+      simp [O5mSpec.emitObject, hv, hei, her, het]
+    rw [hemit] at hsz ⊢
+    have hsz : (O5mSpec.payload fr).length < 2 ^ 64 := by
+      simp only [O5mSpec.tokPayloadLen, O5mSpec.payload, List.map_cons, List.map_append, List.flatten_cons,
+        List.flatten_append, List.length_append] at hsz ⊢
+      omega
+    obtain ⟨st1, hdi, hr1⟩ := decodeInfo_emit ch m hm' { s with id := m.id } { st with id := m.id } hr0 false
+      (encodeVarint (O5mSpec.payload fr).length ++ (O5mSpec.payload fr ++ O5mSpec.payload ft))
+      (by intro h; cases h)
+    rw [hei] at hdi hr1
+    simp only at hdi hr1
+    -- the reference section
+    have hloop := wayRefs_emit refs s1 st1.wayNode (O5mSpec.payload fr ++ O5mSpec.payload ft).length [] (O5mSpec.payload ft)
+      hrefs hr1.wayNode (by rw [her]; simp)
+    rw [her] at hloop
+    simp only [List.reverse_nil, List.nil_append] at hloop
+    have hfr := emitRefs_frame refs s1
+    rw [her] at hfr
+    simp only at hfr
+    obtain ⟨g1, g2, g3, g4, g5, g6, g7, g8, g9, _⟩ := hfr
+    have hr2 : StRel { st1 with wayNode := s2.wayNode } s2 :=
+      ⟨by rw [g1]; exact hr1.tab, by rw [g2]; exact hr1.id, by rw [g3]; exact hr1.ts, by rw [g4]; exact hr1.cs,
+       by rw [g5]; exact hr1.lon, by rw [g6]; exact hr1.lat, rfl, by rw [g7]; exact hr1.mem0, by rw [g8]; exact hr1.mem1,
+       by rw [g9]; exact hr1.mem2⟩
+    obtain ⟨tab', htl, hr3⟩ := tagsTail_bind
+      (fun tg tb => ((Object.way (mkMeta m.id (infoOf m) m.user true tg) refs,
+        { ({ st1 with wayNode := s2.wayNode } : St) with tab := tb }) : Object × St))
+      m.tags htags s2 { st1 with wayNode := s2.wayNode } hr2
+    rw [het] at htl hr3
+    simp only at htl hr3
+    refine ⟨_, _, rfl, ?_, hr3⟩
+    have hpl : O5mSpec.payload (⟨.num, O5mSpec.svarint (O5mSpec.delta m.id s.id)⟩ :: fi ++
+          [⟨.len, encodeVarint (O5mSpec.payload fr).length⟩] ++ fr ++ ft) =
+        O5mSpec.svarint (O5mSpec.delta m.id s.id) ++ (O5mSpec.payload fi ++
+          (encodeVarint (O5mSpec.payload fr).length ++ (O5mSpec.payload fr ++ O5mSpec.payload ft))) := by
+      simp [O5mSpec.payload]
+    rw [hpl]
+    simp only [decodeWay, zvarint_svarint _ (delta_inI64 _ _), ok_bind, hr.id, wrap_delta _ _ hid, hdi, infoOf_user,
+      setUser_ok m.user hulen, isEmpty_encodeVarint_append, Bool.false_eq_true, ↓reduceIte, varint_encode _ hsz]
+    by_cases hpos : (O5mSpec.payload fr).length > 0
+    · have hle : (O5mSpec.payload fr).length ≤ (O5mSpec.payload fr ++ O5mSpec.payload ft).length := by simp
+      have hstop : (O5mSpec.payload fr ++ O5mSpec.payload ft).length - (O5mSpec.payload fr).length = (O5mSpec.payload ft).length := by
+        simp
+      simp only [hpos, ↓reduceIte, checkRefLen, hle, ok_bind, pure_bind', hstop, hloop]
+      rw [htl]
+      have := mkMeta_infoOf m
+      rw [hv] at this
+      simp only [this]
+    · have h0 : O5mSpec.payload fr = [] := by
+        have : (O5mSpec.payload fr).length = 0 := by omega
+        exact List.length_eq_zero_iff.mp this
+      have hrl := emitRefs_length refs s1
+      rw [her] at hrl
+      simp only [h0, List.length_nil] at hrl
+      have hr0' : refs = [] := List.length_eq_zero_iff.mp (by omega)
+      subst hr0'
+      have hs2 : s2 = s1 := by
+        have : O5mSpec.emitRefs s1 [] = ([], s1) := rfl
+        rw [this] at her; cases her; rfl
+      subst hs2
+      have hw := hr1.wayNode
+      simp only [← hw] at htl ⊢
+      simp only [h0, List.length_nil, gt_iff_lt, Nat.lt_irrefl, ↓reduceIte, pure_bind', List.nil_append]
+      have e : ({ st1 with wayNode := st1.wayNode } : St) = st1 := by cases st1; rfl
+      rw [e] at htl
+      rw [htl]
+      have := mkMeta_infoOf m
+      rw [hv] at this
+      simp only [this]
+  · have hvf : m.visible = false := by simpa using hv
+    have hl := hdel hvf
+    have htg := hvis hvf
+    generalize hei : O5mSpec.emitInfo ch { s with id := m.id } m true = ei
+    obtain ⟨fi, s1⟩ := ei
+    have hemit : O5mSpec.emitObject ch s (.way m refs) =
+        (.ds 0x11 (⟨.num, O5mSpec.svarint (O5mSpec.delta m.id s.id)⟩ :: fi), s1) := by
+      simp [O5mSpec.emitObject, hvf, hei]
+    rw [hemit]
+    obtain ⟨st1, hdi, hr1⟩ := decodeInfo_emit ch m hm' { s with id := m.id } { st with id := m.id } hr0 true []
+      (fun _ => rfl)
+    rw [hei] at hdi hr1
+    simp only [List.append_nil] at hdi hr1
+    refine ⟨_, st1, rfl, ?_, hr1⟩
+    have hpl : O5mSpec.payload (⟨.num, O5mSpec.svarint (O5mSpec.delta m.id s.id)⟩ :: fi) =
+        O5mSpec.svarint (O5mSpec.delta m.id s.id) ++ O5mSpec.payload fi := by
+      simp [O5mSpec.payload]
+    rw [hpl]
+    simp only [decodeWay, zvarint_svarint _ (delta_inI64 _ _), ok_bind, hr.id, wrap_delta _ _ hid, hdi, infoOf_user,
+      setUser_ok m.user hulen, List.isEmpty_nil, ↓reduceIte]
+    have := mkMeta_infoOf m
+    rw [hvf, htg] at this
+    rw [this, hl]
+    rfl
+
+theorem decodeRelation_emit (ch : O5mSpec.Choices) (m : Meta) (ms : List Member) (hok : ObjOk (.relation m ms))
+    (s : O5mSpec.EncSt) (st : St) (hr : StRel st s)
+    (hsz : O5mSpec.tokPayloadLen (O5mSpec.emitObject ch s (.relation m ms)).1 < 2 ^ 64) :
+    ∃ fields st', (O5mSpec.emitObject ch s (.relation m ms)).1 = .ds 0x12 fields ∧
+      decodeRelation {} st (O5mSpec.payload fields) = .ok (.relation m ms, st') ∧
+      StRel st' (O5mSpec.emitObject ch s (.relation m ms)).2 := by
+  obtain ⟨hm', hmem, hdel⟩ := hok
+  have hm := hm'
+  obtain ⟨hid, hver, hts, hcs, huid, hunul, hulen, htags, hv0, ht0, hu0, hvis⟩ := hm
+  have hr0 : StRel { st with id := m.id } { s with id := m.id } :=
+    ⟨hr.tab, rfl, hr.ts, hr.cs, hr.lon, hr.lat, hr.wayNode, hr.mem0, hr.mem1, hr.mem2⟩
+  by_cases hv : m.visible = true
+  · generalize hei : O5mSpec.emitInfo ch { s with id := m.id } m false = ei
+    obtain ⟨fi, s1⟩ := ei
+    generalize her : O5mSpec.emitMembers s1 ms = er
+    obtain ⟨fr, s2⟩ := er
+    generalize het : O5mSpec.emitTags s2 m.tags = et
+    obtain ⟨ft, s3⟩ := et
+    have hemit : O5mSpec.emitObject ch s (.relation m ms) =
+        (.ds 0x12 (⟨.num, O5mSpec.svarint (O5mSpec.delta m.id s.id)⟩ :: fi ++
+          [⟨.len, encodeVarint (O5mSpec.payload fr).length⟩] ++ fr ++ ft), s3) := by
+      simp [O5mSpec.emitObject, hv, hei, her, het]
+    rw [hemit] at hsz ⊢
+    have hsz : (O5mSpec.payload fr).length < 2 ^ 64 := by
+      simp only [O5mSpec.tokPayloadLen, O5mSpec.payload, List.map_cons, List.map_append, List.flatten_cons,
+        List.flatten_append, List.length_append] at hsz ⊢
+      omega
+    obtain ⟨st1, hdi, hr1⟩ := decodeInfo_emit ch m hm' { s with id := m.id } { st with id := m.id } hr0 false
+      (encodeVarint (O5mSpec.payload fr).length ++ (O5mSpec.payload fr ++ O5mSpec.payload ft))
+      (by intro h; cases h)
+    rw [hei] at hdi hr1
+    simp only at hdi hr1
+    obtain ⟨st2, hloop, hr2⟩ := relMembers_emit ms s1 st1 (O5mSpec.payload fr ++ O5mSpec.payload ft).length [] (O5mSpec.payload ft)
+      hmem hr1 (by rw [her]; simp)
+    rw [her] at hloop hr2
+    simp only [List.reverse_nil, List.nil_append] at hloop hr2
+    obtain ⟨tab', htl, hr3⟩ := tagsTail_bind
+      (fun tg tb => ((Object.relation (mkMeta m.id (infoOf m) m.user true tg) ms, { st2 with tab := tb }) : Object × St))
+      m.tags htags s2 st2 hr2
+    rw [het] at htl hr3
+    simp only at htl hr3
+    refine ⟨_, _, rfl, ?_, hr3⟩
+    have hpl : O5mSpec.payload (⟨.num, O5mSpec.svarint (O5mSpec.delta m.id s.id)⟩ :: fi ++
+          [⟨.len, encodeVarint (O5mSpec.payload fr).length⟩] ++ fr ++ ft) =
+        O5mSpec.svarint (O5mSpec.delta m.id s.id) ++ (O5mSpec.payload fi ++
+          (encodeVarint (O5mSpec.payload fr).length ++ (O5mSpec.payload fr ++ O5mSpec.payload ft))) := by
+      simp [O5mSpec.payload]
+    rw [hpl]
+    simp only [decodeRelation, zvarint_svarint _ (delta_inI64 _ _), ok_bind, hr.id, wrap_delta _ _ hid, hdi, infoOf_user,
+      setUser_ok m.user hulen, isEmpty_encodeVarint_append, Bool.false_eq_true, ↓reduceIte, varint_encode _ hsz]
+    by_cases hpos : (O5mSpec.payload fr).length > 0
+    · have hle : (O5mSpec.payload fr).length ≤ (O5mSpec.payload fr ++ O5mSpec.payload ft).length := by simp
+      have hstop : (O5mSpec.payload fr ++ O5mSpec.payload ft).length - (O5mSpec.payload fr).length = (O5mSpec.payload ft).length := by
+        simp
+      simp only [hpos, ↓reduceIte, checkRefLen, hle, ok_bind, pure_bind', hstop, hloop]
+      rw [htl]
+      have := mkMeta_infoOf m
+      rw [hv] at this
+      simp only [this]
+    · have h0 : O5mSpec.payload fr = [] := by
+        have : (O5mSpec.payload fr).length = 0 := by omega
+        exact List.length_eq_zero_iff.mp this
+      have hrl := emitMembers_length ms s1
+      rw [her] at hrl
+      simp only [h0, List.length_nil] at hrl
+      have hms0 : ms = [] := List.length_eq_zero_iff.mp (by omega)
+      subst hms0
+      -- with no members the loop is not entered and the state is unchanged
+      have hst2 : st2 = st1 := by
+        rw [h0] at hloop
+        cases hf : (O5mSpec.payload ft).length <;>
+          simp [relMembersGo, hf] at hloop <;> exact hloop.symm
+      subst hst2
+      simp only [h0, List.length_nil, gt_iff_lt, Nat.lt_irrefl, ↓reduceIte, pure_bind', List.nil_append]
+      rw [htl]
+      have := mkMeta_infoOf m
+      rw [hv] at this
+      simp only [this]
+  · have hvf : m.visible = false := by simpa using hv
+    have hl := hdel hvf
+    have htg := hvis hvf
+    generalize hei : O5mSpec.emitInfo ch { s with id := m.id } m true = ei
+    obtain ⟨fi, s1⟩ := ei
+    have hemit : O5mSpec.emitObject ch s (.relation m ms) =
+        (.ds 0x12 (⟨.num, O5mSpec.svarint (O5mSpec.delta m.id s.id)⟩ :: fi), s1) := by
+      simp [O5mSpec.emitObject, hvf, hei]
+    rw [hemit]
+    obtain ⟨st1, hdi, hr1⟩ := decodeInfo_emit ch m hm' { s with id := m.id } { st with id := m.id } hr0 true []
+      (fun _ => rfl)
+    rw [hei] at hdi hr1
+    simp only [List.append_nil] at hdi hr1
+    refine ⟨_, st1, rfl, ?_, hr1⟩
+    have hpl : O5mSpec.payload (⟨.num, O5mSpec.svarint (O5mSpec.delta m.id s.id)⟩ :: fi) =
+        O5mSpec.svarint (O5mSpec.delta m.id s.id) ++ O5mSpec.payload fi := by
+      simp [O5mSpec.payload]
+    rw [hpl]
+    simp only [decodeRelation, zvarint_svarint _ (delta_inI64 _ _), ok_bind, hr.id, wrap_delta _ _ hid, hdi, infoOf_user,
       setUser_ok m.user hulen, List.isEmpty_nil, ↓reduceIte]
     have := mkMeta_infoOf m
     rw [hvf, htg] at this
